@@ -471,10 +471,19 @@ def cmd_replay(prop, path):
     return 0
 
 
+def claimed_props():
+    """Properties with a registered check (MANIFEST.json); the others are work in progress."""
+    try:
+        m = json.load(open(os.path.join(VERIF, "MANIFEST.json")))
+        return sorted(c["property_id"] for c in m["checks"] if c["property_id"] in PROPS)
+    except Exception:
+        return sorted(PROPS)
+
+
 def cmd_selftest(n_seeds=12, props=None, reps=3):
     """Determinism: every (property, seed) is executed several times at GOMAXPROCS 1/4/16; event-log hashes must agree."""
     build()
-    props = props or sorted(PROPS)
+    props = props or claimed_props()
     jobs = []
     for prop in props:
         cfg = PROPS[prop]
